@@ -28,7 +28,7 @@ ATOM_STRINGS = ['', 'a', 'b', '1', 'None', 'True', "a', 'b", "'", "a###b='c", 'x
                 'long' * 300 + 'A', 'long' * 300 + 'B',
                 'm<U+00B2>', 'm2', '<U+FB01>', 'fi', '<U+00E9>', 'e<U+0301>', 'A', 'a ']
 ATOM_INTS = [0, 1, -1, 10]
-ATOM_FLOATS = ['1.0', '0.5', '-0.0', '1e+16', '0.0001234567', '0.0001234568', '0.9999995', '0.9999999']
+ATOM_FLOATS = ['1.0', '0.5', '-0.0', '1e+16', '0.0001234567', '0.0001234568', '0.9999995', '0.9999999', '1e-11', '2e-11']
 SMALL = [('lit', 'None'), ('int', 1), ('str', 'a'), ('str', "a', 'b"), ('str', 'b')]
 DICT_KEYS = sorted(['a', "a': 1, 'b", 'b'])
 QUOTE_KEYS = [k for k in DICT_KEYS if "'" in k]
@@ -51,6 +51,10 @@ OBJECTS = (
                                                          ('list', [('int', 2), ('int', 1)]), ('list', [('list', [('int', 1)])]))
      for b in (('int', 2), ('int', 3))]
     + [('auto', ('KAutoSub', [('a', ('int', 1)), ('b', ('int', 2)), ('c', c)])) for c in (('int', 5), ('int', 6))]
+    # an object that forwards **kwargs to its base class and keeps them (repr: KAutoKw(kwargs={...}, n=1)) ...
+    + [('auto', ('KAutoKw', [('kwargs', ('dict', kw)), ('n', ('int', 1))])) for kw in ([], [('b', ('int', 3))], [('b', ('int', 4))])]
+    # ... and one that keeps an argument as self._b while a property b shows something else (1.4.0 reads _b first)
+    + [('auto', ('KAutoBoth', [('a', ('int', 1)), ('b', b)])) for b in (('int', 2), ('int', 3))]
     + [('inst', ('KPlain', [('int', 1)], [])), ('inst', ('KPlain', [('int', 2)], [])),
        ('inst', ('KPlain', [], [('k', ('int', 1))])), ('inst', ('KPlain', [], [('k', ('int', 2))])),
        ('inst', ('KPlain', [('str', 'p')], [('k', ('list', [('int', 1)]))])),
@@ -150,7 +154,10 @@ def to_py(x):
     if t == 'dict':
         return {k: to_py(v) for k, v in x['v']}
     if t == 'auto':
-        return {'class': f'{MODULE}.{x["cls"]}', 'kwargs': {n: to_py(a) for n, a in x['args']}}
+        kw = {n: to_py(a) for n, a in x['args']}
+        if x['cls'] == 'KAutoKw':       # the forwarded keyword arguments are written flat in the definition
+            kw = {**{k: v for k, v in kw.items() if k != 'kwargs'}, **kw.get('kwargs', {})}
+        return {'class': f'{MODULE}.{x["cls"]}', 'kwargs': kw}
     if t == 'inst':
         return {'class': x['cls'], 'args': [to_py(a) for a in x['args']], 'kwargs': {n: to_py(a) for n, a in x['kwargs']}}
     raise ValueError(t)
@@ -221,6 +228,19 @@ def module():
             super().__init__(a, b, verbose)
             self.c = c
 
+    class KAutoKw(KAuto):
+        def __init__(self, n, **kwargs):
+            super().__init__(n, **kwargs)
+            self.n, self.kwargs = n, kwargs
+
+    class KAutoBoth(AutoParameterObject):
+        def __init__(self, a, b=2):
+            self.a, self._b = a, b
+
+        @property
+        def b(self):
+            return self._b * 100
+
     class KAutoSet(AutoParameterObject):
         def __init__(self, s):
             self.s = set(s)
@@ -229,7 +249,7 @@ def module():
         def __init__(self, *args, **kwargs):
             self.args, self.kwargs = args, kwargs
 
-    for c in (KAuto, KAutoSub, KAutoSet, KPlain):
+    for c in (KAuto, KAutoSub, KAutoKw, KAutoBoth, KAutoSet, KPlain):
         c.__module__ = MODULE
         setattr(mod, c.__name__, c)
     return mod
